@@ -4,7 +4,7 @@ from .. import impl, coqrun, valuecases
 
 MODS = ['Model.Color', 'Spec.ColorSpec']
 RULE = ('cases = colour expressions `<lit> <op> <lit>` and bare literals placed in a declaration value, a variable or a '
-        'function argument; literals of 3 or 6 digits with random letter case, channel values biased to 0, 1, 254, 255 and '
+        'function argument, and (3 in 10) evaluated a SECOND time: inside a mixin called before with other colours, or through a variable used before in a block where its operands have other values; literals of 3 or 6 digits with random letter case, channel values biased to 0, 1, 254, 255 and '
         'to operands whose result is exactly at / just across the clamp bounds; distinct = distinct (literal, op, literal, '
         'context); non-trivial = the two operands differ in at least one channel and the result is not equal to an operand')
 ASSUMPTIONS = ['Python float a/b for 0<=a,b<=255 truncates like the exact quotient (checked exhaustively in the thorough tier)',
@@ -71,7 +71,15 @@ def gen_cases(rng, n):
             b, cb = lit(rng, cb)
         else:
             b, cb = (short_lit(rng) if rng.random() < 0.3 else lit(rng))
-        cases.append({'expr': spaced(rng, a, op, b),
+        wrap = None
+        if rng.random() < 0.3:
+            # evaluated a second time: in a mixin called before with other colours / through a variable used before where its operands differ
+            while True:
+                da, db = lit(rng)[0], lit(rng)
+                if op != '/' or all(db[1]):
+                    break
+            wrap = {'kind': rng.choice(['mixin', 'lazy']), 'expr_fmt': '{0} %s {1}' % op, 'real': [a, b], 'decoy': [da, db[0]]}
+        cases.append({'expr': spaced(rng, a, op, b), 'wrap': wrap,
                       'model': '(color_expr %s %s %s)' % (coqrun.coq_str(a), coqrun.coq_str(op), coqrun.coq_str(b)),
                       'spec': '(spec_color_expr %s %s %s)' % (coqrun.coq_str(a), coqrun.coq_str(op), coqrun.coq_str(b)),
                       'nontrivial': ca != cb, 'key': (a, op, b), 'descr': 'arith %s' % op})
@@ -85,7 +93,7 @@ def run(ctx):
     out, answers = valuecases.correspond(ctx, cases, MODS)
     # the same expressions through a variable and through a function argument (unknown function keeps its arguments)
     sub = [c for c in cases if c['descr'] != 'literal'][: max(40, n // 5)]
-    via_var = [dict(c, expr='@v%d' % i, descr=c['descr'] + ' via variable') for i, c in enumerate(sub)]
+    via_var = [dict(c, expr='@v%d' % i, wrap=None, descr=c['descr'] + ' via variable') for i, c in enumerate(sub)]
     prelude = ''.join('@v%d: %s;\n' % (i, c['expr']) for i, c in enumerate(sub))
     out2, _ = valuecases.correspond(dict(ctx, scratch=ctx['scratch'] + '/v'), via_var, MODS, batch=len(via_var) or 1, prelude=prelude)
     for k in ('spec_mismatch', 'model_mismatch', 'harness_errors'):
@@ -138,9 +146,9 @@ def sweep(ctx):
 def replay(case):
     inp = case['input']
     with impl.Pool(1) as pool:
-        text = inp.get('prelude', '') + '.c0{%s:%s}\n' % (inp.get('prop', 'color'), inp['expr'])
+        text = inp.get('prelude', '') + (inp['sheet'] + '\n' if inp.get('sheet') else '.c0{%s:%s}\n' % (inp.get('prop', 'color'), inp['expr']))
         a = pool.run([{'kind': 'compile', 'text': text, 'opts': {}}])[0]
-    got = valuecases.split_sheet(a['css']).get(0) if a.get('r') == 'ok' else None
+    got = valuecases.split_sheet(a['css']).get(inp.get('index', 0) if inp.get('sheet') else 0) if a.get('r') == 'ok' else None
     exp = case.get('spec')
     still = (exp is None) or (('Ok:%s' % got) != exp)
     return {'input': text, 'impl_now': a, 'value_now': got, 'spec_expected': exp, 'still_fails': still}
